@@ -515,6 +515,7 @@ package router
 //@ func (r *router) close(err error)
 //@   trusted
 //@   requires [C18:no-nil-closer] r != nil && closersOK(r)
+//@   requires [C18:closeable-at-every-stage] r.cancel != nil && r.limiter != nil && upstreamsOK(r)
 //@   modifies *
 
 //@ spec func ruleAsConfigured(r *router, ru *rule, reverse bool, domain string, reject uint16, forward string) bool = ru != nil && ru.reject == reject
@@ -532,6 +533,7 @@ package router
 //@   ensures [C18:startup-error-returns-no-router] err != nil ==> rr == nil
 //@   loop 1:
 //@     modifies obj(r.upstreams)
+//@     invariant upstreamsOK(r)
 //@   loop 2:
 //@     modifies obj(r.domainSets), pkgheaps(domain_matcher)
 //@   loop 3:
@@ -611,3 +613,25 @@ package router
 //@   ensures [C03:response-not-cut-before-the-request-deadline] err == nil ==> hs.WriteTimeout == 0 || int(hs.WriteTimeout) > 6 * sec()
 //@   ensures [C01:bounded-request-headers] err == nil ==> hs.MaxHeaderBytes == 4096 && int(hs.ReadTimeout) > 0
 //@   callsite makeTlsConfig?: [C17:listener-requires-certificate] arg1 == true
+
+//@ func (c *cacheCtl) Close() (err error)
+//@   trusted
+//@   requires c != nil
+//@   modifies nothing
+
+// closeImpl (run at most once by close): works at every stage of start-up - in particular before the cache
+// exists - and calls every registered closer; it requires only what run() has established by then.
+//@ spec func upstreamsOK(r *router) bool = forallkey(k, r.upstreams, has(r.upstreams, k) ==> r.upstreams[k] != nil && r.upstreams[k].u != nil)
+//@ func (r *router) closeImpl(err error)
+//@   props C18
+//@   requires r != nil && r.cancel != nil && r.limiter != nil && closersOK(r) && upstreamsOK(r)
+//@   ghost nCancel int = 0
+//@   dyncall f: modifies nothing
+//@   dyncall cancel: modifies nothing
+//@   modifies nothing
+//@   loop 1:
+//@     modifies nothing
+//@     invariant upstreamsOK(r)
+//@   loop 2:
+//@     modifies nothing
+//@     invariant closersOK(r)
